@@ -473,6 +473,7 @@ def run_check(pid, tier, seed):
         # --- replay tier: committed regression cases first
         regress = sorted(glob.glob(os.path.join(VERIF, "replays", pid, "*.case")))
         regress = [c for c in regress if not os.path.basename(c).startswith("found-")]
+        n_regress = len(regress)
         for c in regress:
             rc, out = replay_once(binary, c, env, extra_args=extra_args)
             if rc != 0:
@@ -689,7 +690,7 @@ def run_check(pid, tier, seed):
         weak = check_floors(p, tot) if not violations else []
         if weak:
             log("[warn] %s: generator below class floors: %s" % (pid, ", ".join(weak)))
-        extra_cov = {}
+        extra_cov = {"replayed_regression_cases": n_regress}
         if tot["notes"].get("exhaustive"):
             extra_cov["exhaustive_subspaces"] = tot["notes"]["exhaustive"]
         wall = time.time() - t0
